@@ -151,10 +151,136 @@ def section():
     return "\n".join(out)
 
 
+# ---------------------------------------------------------------------------------------------------
+# Replay aid: a small table of structurally valid frames built from the tables above by a specification-level
+# encoder written here (no library code), with the value every accessor must report. Emitted as Go source
+# (cmd/mqvc/replay_c03_gen.go); the verifier runs it against the real ReadPacket when a C03 obligation fails.
+
+VALUES = {BYTE: ([0x01], "1"), BOOL: ([0x01], "true"), U16: ([0x12, 0x34], "0x1234"), U32: ([0x12, 0x34, 0x56, 0x78], "0x12345678"),
+          STR: ([0x00, 0x02, 0x61, 0x62], '"ab"'), BIN: ([0x00, 0x02, 0x01, 0x02], "[]byte{1, 2}"), VBI: ([0xac, 0x02], "300")}
+
+# frame = head + [remaining length] + pre + [property length] + props + post
+FRAMES = {
+    "Connect": (0x10, [0, 4, 0x4d, 0x51, 0x54, 0x54, 5, 0, 0, 10], [0, 1, 0x63]),
+    "ConnAck": (0x20, [0, 0], []),
+    "Publish": (0x30, [0, 1, 0x74], [0x78]),
+    "PubAck": (0x40, [0, 7, 0], []), "PubRec": (0x50, [0, 7, 0], []), "PubRel": (0x62, [0, 7, 0], []), "PubComp": (0x70, [0, 7, 0], []),
+    "Subscribe": (0x82, [0, 7], [0, 1, 0x61, 0]),
+    "SubAck": (0x90, [0, 7], [0]),
+    "Unsubscribe": (0xa2, [0, 7], [0, 1, 0x61]),
+    "UnsubAck": (0xb0, [0, 7], [0]),
+    "Disconnect": (0xe0, [0], []),
+    "Auth": (0xf0, [0], []),
+}
+
+
+def go_bytes(bs):
+    return "[]byte{" + ", ".join("0x%02x" % b for b in bs) + "}"
+
+
+def harness():
+    out = []
+    w = out.append
+    w("package main")
+    w("")
+    w("// Code generated by /verif/gen_c03.py --harness; DO NOT EDIT.")
+    w("")
+    w("// c03Harness: structurally valid MQTT v5.0 frames built by a specification-level encoder in gen_c03.py")
+    w("// (each allowed property alone, all together, all together in reverse order, the legal short forms) and the")
+    w("// value every accessor must report. Replay aid for C03, not part of the proof.")
+    w("const c03Harness = `package mq")
+    w("")
+    w('import (')
+    w('\t"bytes"')
+    w('\t"fmt"')
+    w('\t"testing"')
+    w(')')
+    w("")
+    w("func TestVerifReplay(t *testing.T) {")
+    w("\ttype tc struct {")
+    w("\t\tname  string")
+    w("\t\tframe []byte")
+    w("\t\tcheck func(p ControlPacket) string")
+    w("\t}")
+    w("\tvar cases []tc")
+    for t, (head, pre, post) in FRAMES.items():
+        props = [(i, ty, a) for (i, ty, a) in PROPS[t] if a]
+        def frame(entries):
+            ps = []
+            for (i, ty, a) in entries:
+                ps += [i] + VALUES[ty][0]
+            body = pre + [len(ps)] + ps + post
+            assert len(body) < 128 and len(ps) < 128
+            return [head, len(body)] + body
+        def check(entries):
+            lines = []
+            for (i, ty, a) in entries:
+                val = VALUES[ty][1]
+                acc = "q." + a
+                if ty in (STR,):
+                    cond = "%s != %s" % (acc, val)
+                elif ty == BIN:
+                    cond = "!bytes.Equal(%s, %s)" % (acc, val)
+                elif ty == BYTE:
+                    cond = "uint8(%s) != %s" % (acc, val)
+                elif ty == VBI:
+                    cond = "int(%s) != %s" % (acc, val)
+                else:
+                    cond = "%s != %s" % (acc, val)
+                lines.append('\t\t\tif %s {\n\t\t\t\treturn fmt.Sprintf("%s = %%v, the frame carries %s under identifier 0x%02x", %s)\n\t\t\t}' % (cond, a.replace('"', ''), val.replace('"', "'"), i, acc))
+            return "func(p ControlPacket) string {\n\t\t\tq, ok := p.(*%s)\n\t\t\tif !ok {\n\t\t\t\treturn fmt.Sprintf(\"type %%T\", p)\n\t\t\t}\n\t\t\t_ = q\n%s\n\t\t\treturn \"\"\n\t\t}" % (t, "\n".join(lines))
+        sets = [("no properties", [])] + [("property 0x%02x alone" % e[0], [e]) for e in props]
+        if len(props) > 1:
+            sets += [("all properties", props), ("all properties in reverse order", props[::-1])]
+        for (nm, es) in sets:
+            w('\tcases = append(cases, tc{"%s, %s", %s, %s})' % (t.upper(), nm, go_bytes(frame(es)), check(es)))
+    # legal short forms
+    for t, hb in (("PubAck", 0x40), ("PubRec", 0x50), ("PubRel", 0x62), ("PubComp", 0x70)):
+        w('\tcases = append(cases, tc{"%s, remaining length 2", %s, func(p ControlPacket) string { if q, ok := p.(*%s); !ok || q.PacketID() != 7 || q.ReasonCode() != 0 { return "packet id / reason code" }; return "" }})' % (t.upper(), go_bytes([hb, 2, 0, 7]), t))
+        w('\tcases = append(cases, tc{"%s, remaining length 3", %s, func(p ControlPacket) string { if q, ok := p.(*%s); !ok || q.PacketID() != 7 || uint8(q.ReasonCode()) != 0x97 { return fmt.Sprintf("packet id %%d reason code 0x%%02x, the frame carries 7 and 0x97", q.PacketID(), uint8(q.ReasonCode())) }; return "" }})' % (t.upper(), go_bytes([hb, 3, 0, 7, 0x97]), t))
+    w('\tcases = append(cases, tc{"DISCONNECT, remaining length 0", %s, func(p ControlPacket) string { if _, ok := p.(*Disconnect); !ok { return "type" }; return "" }})' % go_bytes([0xe0, 0]))
+    w('\tcases = append(cases, tc{"DISCONNECT, remaining length 1", %s, func(p ControlPacket) string { if q, ok := p.(*Disconnect); !ok || uint8(q.ReasonCode()) != 0x8b { return "reason code" }; return "" }})' % go_bytes([0xe0, 1, 0x8b]))
+    w('\tcases = append(cases, tc{"AUTH, remaining length 0", %s, func(p ControlPacket) string { if _, ok := p.(*Auth); !ok { return "type" }; return "" }})' % go_bytes([0xf0, 0]))
+    w('\tcases = append(cases, tc{"CONNACK, user property with an empty value followed by a reason string", %s, func(p ControlPacket) string { q, ok := p.(*ConnAck); if !ok || len(q.UserProperties) != 1 || q.UserProperties[0][0] != "k" || q.UserProperties[0][1] != "" || q.ReasonString() != "ab" { return fmt.Sprintf("user properties %%v reason string %%q, the frame carries k: and ab", q.UserProperties, q.ReasonString()) }; return "" }})' % go_bytes([0x20, 14, 0, 0, 11, 0x26, 0, 1, 0x6b, 0, 0, 0x1f, 0, 2, 0x61, 0x62]))
+    w('\tcases = append(cases, tc{"CONNECT with a will message, will QoS 1 and will retain", %s, func(p ControlPacket) string { q, ok := p.(*Connect); if !ok || q.Will() == nil || !q.Will().Retain() || q.Will().QoS() != 1 || q.Will().TopicName() != "t" { return "will message: retain, QoS 1 and topic t are carried by the frame" }; return "" }})' % go_bytes([0x10, 21, 0, 4, 0x4d, 0x51, 0x54, 0x54, 5, 0x2c, 0, 10, 0, 0, 1, 0x63, 0, 0, 1, 0x74, 0, 0, 0]))
+    w("\tfound := 0")
+    w("\tfor _, c := range cases {")
+    w("\t\tif found >= 5 {")
+    w("\t\t\tbreak")
+    w("\t\t}")
+    w("\t\tfunc() {")
+    w("\t\t\tdefer func() {")
+    w("\t\t\t\tif e := recover(); e != nil {")
+    w("\t\t\t\t\tfound++")
+    w('\t\t\t\t\tfmt.Printf("REPLAY-FOUND %s (frame % x): ReadPacket panicked: %v\\n", c.name, c.frame, e)')
+    w("\t\t\t\t}")
+    w("\t\t\t}()")
+    w("\t\t\tp, err := ReadPacket(bytes.NewReader(c.frame))")
+    w("\t\t\tif err != nil || p == nil {")
+    w("\t\t\t\tfound++")
+    w('\t\t\t\tfmt.Printf("REPLAY-FOUND %s (frame % x): a valid frame is refused: %v\\n", c.name, c.frame, err)')
+    w("\t\t\t\treturn")
+    w("\t\t\t}")
+    w('\t\t\tif msg := c.check(p); msg != "" {')
+    w("\t\t\t\tfound++")
+    w('\t\t\t\tfmt.Printf("REPLAY-FOUND %s (frame % x): %s\\n", c.name, c.frame, msg)')
+    w("\t\t\t}")
+    w("\t\t}()")
+    w("\t}")
+    w('\tfmt.Println("REPLAY-DONE")')
+    w("}")
+    w("`")
+    return "\n".join(out).replace("\\n", "\x00").replace("\n", "\n").replace("\x00", "\\n").replace("\t", "\t") + "\n"
+
+
 BEGIN = "// BEGIN generated by /verif/gen_c03.py (do not edit by hand)"
 END = "// END generated by /verif/gen_c03.py"
 
 if __name__ == "__main__":
+    if len(sys.argv) > 1 and sys.argv[1] == "--harness":
+        open("/verif/cmd/mqvc/replay_c03_gen.go", "w").write(harness())
+        print("wrote /verif/cmd/mqvc/replay_c03_gen.go")
+        sys.exit(0)
     path = sys.argv[1] if len(sys.argv) > 1 else "/repo/contracts_verif.go"
     s = open(path).read()
     body = BEGIN + "\n\n" + section() + "\n" + END
